@@ -203,6 +203,28 @@ func (r *Run) Finish() {
 	}
 }
 
+var journalMu sync.Mutex
+
+// Journal appends a line to the file named by VERIF_JOURNAL (if set), synchronously, so that the
+// history leading to a crash of the process under test can be reported by run.py.
+func Journal(line string) {
+	path := os.Getenv("VERIF_JOURNAL")
+	if path == "" {
+		return
+	}
+	journalMu.Lock()
+	defer journalMu.Unlock()
+	f, err := os.OpenFile(path, os.O_APPEND|os.O_CREATE|os.O_WRONLY, 0o644)
+	if err != nil {
+		return
+	}
+	f.WriteString(line + "\n")
+	f.Close()
+}
+
+// Serial reports whether the harness was asked to run its cases one at a time (crash attribution).
+func Serial() bool { return os.Getenv("VERIF_SERIAL") == "1" }
+
 // Hex encodes bytes for the line protocol ("-" for empty).
 func Hex(b []byte) string {
 	if len(b) == 0 {
